@@ -115,12 +115,22 @@ pub struct Src<'a, T> {
     pub it: std::vec::IntoIter<T>,
     pub pulled: &'a Cell<usize>,
     pub hint: u8,
+    /// a source that is not fused: items it would hand out if polled again after it has
+    /// returned None (a `for` loop never does that; they must not reach the container)
+    pub after: Vec<T>,
+    pub ended: bool,
 }
 impl<T> Iterator for Src<'_, T> {
     type Item = T;
     fn next(&mut self) -> Option<T> {
         tl::tick(Cb::SrcNext);
-        let x = self.it.next();
+        let mut x = self.it.next();
+        if x.is_none() {
+            if self.ended {
+                x = self.after.pop();
+            }
+            self.ended = true;
+        }
         if x.is_some() {
             self.pulled.set(self.pulled.get() + 1);
         }
@@ -1015,6 +1025,7 @@ where
         let keys = self.gen_keys(a, b, len);
         let by_ref = KD::K::IS_COPY && (a & 1 == 1);
         let hint = b >> 3;
+        let univ = self.univ;
         {
             let Some(slot) = self.slots[w].as_mut() else { return };
             let cx = &mut *self.cx;
@@ -1043,13 +1054,22 @@ where
                 self.op_overflow = true;
             }
             let pulled = Cell::new(0usize);
+            // non-fused source: an element (absent from the expected result) it would yield if
+            // polled again after None
+            let mut after: Vec<KD::K> = Vec::new();
+            if hint & 4 != 0 && !by_ref && overflow_at.is_none() {
+                if let Some(k) = (0..univ).find(|k| !want.contains_key(k)) {
+                    after.push(KD::key(k));
+                    cx.bump(S::bulk_nonfused_sources);
+                }
+            }
             let m = &mut slot.c.m;
             let r = if by_ref {
                 let refs: Vec<&KD::K> = items.iter().collect();
-                let src = Src { it: refs.into_iter(), pulled: &pulled, hint };
+                let src = Src { it: refs.into_iter(), pulled: &pulled, hint, after: vec![], ended: false };
                 Self::lib(cx, || KD::K::extend_by_ref(m, src))
             } else {
-                let src = Src { it: items.into_iter(), pulled: &pulled, hint };
+                let src = Src { it: items.into_iter(), pulled: &pulled, hint, after, ended: false };
                 Self::lib(cx, || m.extend(src))
             };
             cx.log(|| format!("extend{}[{w}]({keys:?}) -> {r:?}   (model: overflow at {overflow_at:?})", if by_ref { "(&T)" } else { "" }));
@@ -1267,13 +1287,21 @@ where
         let items: Vec<KD::K> = keys.iter().map(|k| KD::key(*k)).collect();
         let ids: Vec<u32> = items.iter().map(|k| KD::kid(k)).collect();
         let pulled = Cell::new(0usize);
+        let mut after: Vec<KD::K> = Vec::new();
+        if hint & 4 != 0 && sub != 2 && overflow_at.is_none() {
+            let univ = self.univ;
+            if let Some(k) = (0..univ).find(|k| !want.iter().any(|e| e.0 == *k)) {
+                after.push(KD::key(k));
+                cx.bump(S::bulk_nonfused_sources);
+            }
+        }
         let r: Result<St<KD, N>, Pk> = match sub {
             0 => {
-                let src = Src { it: items.into_iter(), pulled: &pulled, hint };
+                let src = Src { it: items.into_iter(), pulled: &pulled, hint, after, ended: false };
                 Self::lib(cx, || St::<KD, N>::from_iter(src))
             }
             1 => {
-                let src = Src { it: items.into_iter(), pulled: &pulled, hint };
+                let src = Src { it: items.into_iter(), pulled: &pulled, hint, after, ended: false };
                 Self::lib(cx, || src.collect::<St<KD, N>>())
             }
             _ => {
@@ -1726,8 +1754,8 @@ pub fn run_dyn(case: &Case, cx: &mut Ctx) {
     };
     let n = mmv_base::capacity_of(&Case { kind, ..case.clone() });
     match kind {
-        0 => mmv_base::by_cap!(run, Tracked, n, case, cx, [0, 1, 2, 3, 4, 6, 9, 17, 33, 70]),
-        1 => mmv_base::by_cap!(run, Plain, n, case, cx, [0, 1, 2, 3, 4, 6, 9, 17, 33, 70]),
+        0 => mmv_base::by_cap!(run, Tracked, n, case, cx, [0, 1, 2, 3, 4, 6, 9, 17, 32, 33, 64, 70]),
+        1 => mmv_base::by_cap!(run, Plain, n, case, cx, [0, 1, 2, 3, 4, 6, 9, 17, 32, 33, 64, 70]),
         2 => mmv_base::by_cap!(run, Str, n, case, cx, [0, 1, 2, 3, 4, 6]),
         4 => mmv_base::by_cap!(run, ZstKey, n, case, cx, [0, 1]),
         6 => mmv_base::by_cap!(run, NoDrop, n, case, cx, [0, 1, 2, 3, 4, 6]),
